@@ -5,6 +5,7 @@ import (
 	"go/constant"
 	"go/token"
 	"go/types"
+	"regexp"
 	"sort"
 
 	"golang.org/x/tools/go/ssa"
@@ -46,6 +47,10 @@ func patternGlobals(p *Prog, rel string) map[string]patGlobal {
 				continue
 			}
 			if s, ok := constString(call.Call.Args[0]); ok {
+				out[g.Name()] = patGlobal{G: g, Pat: s, Pos: call.Pos()}
+			} else if s, ok := staticString(p, call.Call.Args[0], 0); ok {
+				// a pattern assembled from named constants / never-reassigned package variables, concatenation
+				// and regexp.QuoteMeta: folded here
 				out[g.Name()] = patGlobal{G: g, Pat: s, Pos: call.Pos()}
 			} else {
 				out[g.Name()] = patGlobal{G: g, Pat: "\x00nonconst", Pos: call.Pos()}
@@ -394,4 +399,69 @@ func lossyIntConv(from, to types.Type) string {
 		return ""
 	}
 	return fmt.Sprintf("%s to %s does not keep every value (int/uint are 32 bits wide on 32-bit platforms)", fb.Name(), tb.Name())
+}
+
+// staticString folds a string expression built at package initialisation from constants, concatenation,
+// regexp.QuoteMeta and package-level string variables that are assigned exactly once (by the package
+// initialiser, with a foldable value) and whose address is never taken otherwise.
+func staticString(p *Prog, v ssa.Value, depth int) (string, bool) {
+	if depth > 8 {
+		return "", false
+	}
+	if s, ok := constString(v); ok {
+		return s, true
+	}
+	switch x := v.(type) {
+	case *ssa.BinOp:
+		if x.Op != token.ADD {
+			return "", false
+		}
+		a, ok1 := staticString(p, x.X, depth+1)
+		b, ok2 := staticString(p, x.Y, depth+1)
+		return a + b, ok1 && ok2
+	case *ssa.Call:
+		if calleeName(&x.Call) == "regexp.QuoteMeta" && len(x.Call.Args) == 1 {
+			if a, ok := staticString(p, x.Call.Args[0], depth+1); ok {
+				return regexp.QuoteMeta(a), true
+			}
+		}
+	case *ssa.UnOp:
+		g, ok := x.X.(*ssa.Global)
+		if !ok || x.Op != token.MUL {
+			return "", false
+		}
+		var val ssa.Value
+		n := 0
+		for _, fn := range p.Funcs {
+			for _, b := range fn.Blocks {
+				for _, ins := range b.Instrs {
+					for _, op := range ins.Operands(nil) {
+						if op == nil || *op != ssa.Value(g) {
+							continue
+						}
+						switch y := ins.(type) {
+						case *ssa.Store:
+							if y.Addr == ssa.Value(g) {
+								n++
+								val = y.Val
+								if fn.Name() != "init" {
+									return "", false
+								}
+							} else {
+								return "", false // address stored somewhere
+							}
+						case *ssa.UnOp:
+							// a load
+						default:
+							return "", false // address escapes
+						}
+					}
+				}
+			}
+		}
+		if n == 1 {
+			return staticString(p, val, depth+1)
+		}
+	}
+	return "", false
 }
